@@ -517,6 +517,14 @@ def install(reg):
         """getattr(obj, name[, default]) for a declared optional field: an absent attribute is modelled as None"""
         obj, name = args[0], args[1]
         if not (isinstance(name, VStr) and name.lit is not None and isinstance(obj, VRef)):
+            if len(args) >= 3:
+                # a computed attribute name with a default: the attribute may or may not exist; if it does it is
+                # some (unknown) callable -- this is how handler methods render_<method> are looked up
+                h = VFunc('opaque')
+                h.t = z3.Int(fresh_name('handler'))
+                st.log.append(('getattr_dynamic', obj, h))
+                s2 = st.copy()
+                return [(st, h), (s2, args[2])]
             ex.unsupported(node, 'getattr with a computed name')
         out = []
         for s, v in ex.getattr(st, obj, name.lit, node):
@@ -529,6 +537,22 @@ def install(reg):
             if st_f is not None:
                 out.append((st_f, v.some()))
         return out
+
+    @ext('builtins.hasattr')
+    def _hasattr(ex, st, args, kw, node):
+        """true if the attribute is known statically (declared field, method or class constant of the static class);
+        otherwise unknown (a subclass may have it)"""
+        obj, name = args
+        if isinstance(obj, VRef) and isinstance(name, VStr) and name.lit is not None and obj.cls is not None:
+            if ex.reg.field_type(obj.cls, name.lit) is not None or ex.find_method(obj.cls, name.lit) is not None:
+                return [(st, VBool(True))]
+            for ci in ex.mro_infos(obj.cls):
+                d = ex.reg.class_by_key.get('%s:%s' % (ci.module.name, ci.qualname))
+                if (d is not None and name.lit in d.fields) or name.lit in ci.class_attrs:
+                    return [(st, VBool(True))]
+            if getattr(obj, 'exact', False):
+                return [(st, VBool(False))]
+        return [(st, VBool(z3.Bool(fresh_name('hasattr'))))]
 
     @ext('builtins.tuple')
     def _tuple(ex, st, args, kw, node):
@@ -590,6 +614,8 @@ def install(reg):
         return [(st, VStr(fresh(STR, 'repr')))]
 
     reg.externals['builtins.str'] = _repr
+    reg.externals['str.lower'] = _repr
+    reg.externals['str.upper'] = _repr
     reg.externals['builtins.id'] = lambda ex, st, args, kw, node: [(st, VInt(z3.Int(fresh_name('id'))))]
     @ext('builtins.type')
     def _type(ex, st, args, kw, node):
